@@ -30,7 +30,13 @@ func ReadView(db *sql.DB, h uint32) (*View, error) {
 // Drive forges and syncs blocks one at a time up to `upto`. each (optional) runs at the
 // quiescent point after block h is committed.
 func Drive(n *harness.Node, g Generator, w *forge.World, upto uint32, wo harness.WaitOpts, each func(h uint32, b *forge.Block) error) error {
-	s, err := n.Synced()
+	return DriveP(&n, g, w, upto, wo, each)
+}
+
+// DriveP is Drive for a daemon that may be replaced (stopped and started again on the same database) by
+// the callback between two blocks.
+func DriveP(np **harness.Node, g Generator, w *forge.World, upto uint32, wo harness.WaitOpts, each func(h uint32, b *forge.Block) error) error {
+	s, err := (*np).Synced()
 	if err != nil {
 		return err
 	}
@@ -38,13 +44,13 @@ func Drive(n *harness.Node, g Generator, w *forge.World, upto uint32, wo harness
 		s = w.Eras.Pegnet
 	}
 	for h := s + 1; h <= upto; h++ {
-		v, err := ReadView(n.RO, h)
+		v, err := ReadView((*np).RO, h)
 		if err != nil {
 			return err
 		}
 		spec := g.Next(v)
 		b := w.Commit(spec)
-		if err := n.WaitSynced(h, wo); err != nil {
+		if err := (*np).WaitSynced(h, wo); err != nil {
 			return err
 		}
 		if each != nil {
